@@ -80,6 +80,35 @@ def run(chk: Check):
         chk.sample({"kind": I["kind"], "norb": I["norb"], "nelec": [I["nu"], I["nd"]], "restricted_walkers": I["restricted"],
                     "trial": I["json"]["trial"], "walker0": I["json"]["walkers"][0],
                     "exact_overlap0": [ex[0]["ov"].real, ex[0]["ov"].imag]}, limit=4)
+    # non-orthonormal beta orbitals of the UCISD kinds ("trial orbitals need not be orthonormal for the overlap statement"):
+    # the trial state is the CI expansion over determinants of the GIVEN beta orbitals (columns of mo_coeff[1]), so the
+    # overlap depends on the walker only through mo_coeff[1]^T w_dn.  An instance with exact values (orthogonal moB0) is
+    # replayed with an invertible, non-orthogonal integer matrix N as beta orbitals and the down walker pulled back,
+    # w' = N^-T moB0^T w_dn: the exact overlaps of the original instance must be returned
+    prng = np.random.default_rng(7100 + chk.seed)
+    npull = 0
+    for I in insts:
+        if I["kind"] not in ("ucisd", "UCISD") or I["id"] not in res or I["nd"] == 0:
+            continue
+        n = I["norb"]
+        for _ in range(100):
+            N = wf.rand_int(prng, (n, n), -2, 2)
+            if abs(round(np.linalg.det(N))) >= 1 and not np.allclose(N.T @ N, np.diag(np.diag(N.T @ N))):
+                break
+        else:
+            continue
+        M0 = I["trial"]["moB"] / I["trial"]["d"]
+        J = dict(I)
+        J["trial"] = dict(I["trial"], moB=N, d=1)
+        J["restricted"] = False        # a restricted (single-array) walker has no independent down block to pull back
+        J["walkers"] = [(a, np.linalg.solve(N.T.astype(float), M0.T @ b)) for a, b in I["walkers"]]
+        ex = wf.exact_values(I, res[I["id"]])
+        got = wfcheck.lib_eval(J, "ov")
+        wfcheck.compare(chk, I, ex, got, "ov", wfcheck.TOL64 * max(1.0, float(np.linalg.cond(N))), "overlap-nonorthonormal-beta",
+                        tag=f"/moB={N.tolist()},pulled-back")
+        chk.traces += 1
+        npull += 1
+    chk.note("ucisd_nonorthonormal_beta_orbital_replays", npull)
     # 1-RDM
     prev_rdm = {}
     for I in rdm_insts:
